@@ -16,6 +16,99 @@ MUTATORS = {
     "_DatasetClassMeta.__init__": None, "_DatasetClassMixin.__init__": None, "Interface.__init__": None, "Implementation.__init__": None, "Interface.__setattr__": None,
 }
 CTORS = {"__init__", "__new__", "__init_subclass__", "__post_init__", "__set_name__"}
+# container methods that change their receiver
+MUT_METHODS = {"add", "append", "extend", "insert", "remove", "discard", "pop", "popitem", "clear", "update", "setdefault", "sort", "reverse",
+               "appendleft", "popleft", "extendleft", "rotate", "__setitem__", "__delitem__", "__iadd__", "__ior__", "move_to_end", "intersection_update", "difference_update",
+               "symmetric_difference_update"}
+MUTABLE_CTORS = {"dict", "list", "set", "defaultdict", "OrderedDict", "Counter", "deque", "WeakKeyDictionary", "WeakValueDictionary", "WeakSet", "bytearray", "local"}
+MEMO_DECORATORS = {"lru_cache", "cache", "cached_property", "singledispatch"}
+# module-level functions / methods that own a module-level table (each under its own contract: C14/C15 runtime tables, C15 lock table)
+GLOBAL_MUTATORS = {
+    ("labrea.overload", "_get_lock"): {"_LOCKS"},
+    ("labrea.runtime", "current_runtime"): {"_RUNTIMES"}, ("labrea.runtime", "handle_by_default"): {"_DEFAULT_HANDLERS"},
+    ("labrea.runtime", "inherit"): {"_RUNTIMES"}, ("labrea.runtime", "Runtime.__enter__"): {"_RUNTIMES", "_PREVIOUS"},
+    ("labrea.runtime", "Runtime.__exit__"): {"_RUNTIMES", "_PREVIOUS"},
+}
+
+
+def _root(n):
+    depth = 0
+    while isinstance(n, (ast.Attribute, ast.Subscript)):
+        n = n.value
+        depth += 1
+    return (n.id if isinstance(n, ast.Name) else None), depth
+
+
+def _first_attr(n):
+    """the attribute of the root name through which the chain goes: self.<attr>...."""
+    last = None
+    while isinstance(n, (ast.Attribute, ast.Subscript)):
+        if isinstance(n, ast.Attribute):
+            last = n.attr
+        n = n.value
+    return last
+
+
+def mutable_globals(m):
+    out = set()
+    for n, v in m.assigns.items():
+        if n.startswith("__") and n.endswith("__"):
+            continue
+        if isinstance(v, (ast.Dict, ast.List, ast.Set, ast.DictComp, ast.ListComp, ast.SetComp)):
+            out.add(n)
+        elif isinstance(v, ast.Call):
+            f = v.func
+            nm = f.id if isinstance(f, ast.Name) else (f.attr if isinstance(f, ast.Attribute) else None)
+            if nm in MUTABLE_CTORS:
+                out.add(n)
+    return out
+
+
+def global_obligations(repo):
+    """no function or method of any module changes a module-level container (a process-wide memo / interning table) except the declared owners
+    of the runtime and lock tables; no function is wrapped in a memoising decorator"""
+    out = []
+    for m in repo.modules.values():
+        globs = mutable_globals(m)
+        fns = [(name, fn) for name, fn in m.functions.items()]
+        for ci in m.classes.values():
+            fns += [(f"{ci.name}.{name}", fn) for name, fn in ci.methods.items()]
+        bad = []
+        for qual, fn in fns:
+            allowed = GLOBAL_MUTATORS.get((m.name, qual), set())
+            for n in ast.walk(fn):
+                if isinstance(n, (ast.FunctionDef, ast.AsyncFunctionDef)):
+                    for d in n.decorator_list:
+                        dn = d.func if isinstance(d, ast.Call) else d
+                        nm = dn.id if isinstance(dn, ast.Name) else (dn.attr if isinstance(dn, ast.Attribute) else None)
+                        if nm in MEMO_DECORATORS:
+                            bad.append(f"{qual}: @{nm}")
+                if isinstance(n, ast.Global):
+                    bad.append(f"{qual}: {ast.unparse(n)}")
+                if isinstance(n, ast.Call) and isinstance(n.func, ast.Attribute) and n.func.attr in MUT_METHODS:
+                    r, _ = _root(n.func.value)
+                    if r in globs and r not in allowed and not _shadowed(fn, r):
+                        bad.append(f"{qual}: {ast.unparse(n)[:60]}")
+                if isinstance(n, ast.Subscript) and isinstance(n.ctx, (ast.Store, ast.Del)):
+                    r, _ = _root(n.value)
+                    if r in globs and r not in allowed and not _shadowed(fn, r):
+                        bad.append(f"{qual}: {ast.unparse(n)[:60]}")
+                if isinstance(n, ast.AugAssign) and isinstance(n.target, ast.Name) and n.target.id in globs and not _shadowed(fn, n.target.id):
+                    bad.append(f"{qual}: {ast.unparse(n)[:60]}")
+        out.append({"name": f"{m.name}:frame:no-process-wide-table", "ok": not bad, "detail": "; ".join(bad)[:200], "group": f"{m.name.split('.')[-1]}:globals-frame"})
+    return out
+
+
+def _shadowed(fn, name):
+    """the name is a parameter or plainly assigned local of fn (then it is not the module-level container)"""
+    a = fn.args
+    params = {x.arg for x in a.posonlyargs + a.args + a.kwonlyargs} | ({a.vararg.arg} if a.vararg else set()) | ({a.kwarg.arg} if a.kwarg else set())
+    if name in params:
+        return True
+    for n in ast.walk(fn):
+        if isinstance(n, ast.Name) and isinstance(n.ctx, ast.Store) and n.id == name:
+            return True
+    return False
 
 
 def obligations(repo):
@@ -45,5 +138,14 @@ def obligations(repo):
                     elif isinstance(n, ast.Call) and isinstance(n.func, ast.Name) and n.func.id in ("setattr", "delattr") and n.args \
                             and isinstance(n.args[0], ast.Name) and n.args[0].id in (recv, "cls"):
                         bad.append(ast.unparse(n))
+                    elif isinstance(n, ast.Call) and isinstance(n.func, ast.Attribute) and n.func.attr in MUT_METHODS:
+                        # a container reached through a field of the receiver is changed in place (self._seen.add(x), self.memo.setdefault(..))
+                        r, depth = _root(n.func.value)
+                        if r in (recv, "cls") and depth >= 1 and _first_attr(n.func.value) not in allowed and _first_attr(n.func.value) + "[]" not in allowed:
+                            bad.append(ast.unparse(n)[:60])
+                    elif isinstance(n, ast.AugAssign) and isinstance(n.target, (ast.Attribute, ast.Subscript)):
+                        r, depth = _root(n.target)
+                        if r in (recv, "cls") and depth >= 1 and _first_attr(n.target) not in allowed and _first_attr(n.target) + "[]" not in allowed:
+                            bad.append(ast.unparse(n)[:60])
                 out.append({"name": f"{qual}:frame:no-hidden-state", "ok": not bad, "detail": "; ".join(bad)[:160], "group": f"{ci.name}:frame"})
-    return out
+    return out + global_obligations(repo)
